@@ -29,9 +29,10 @@ from harness import opsem
 
 ID = 'C16'
 R = 130
-# in-flight mode: a 24-level expression around the context function p; at most MAX_INFLIGHT evaluations of it in flight at once
-INFLIGHT_PROGRAM = '1 + ( ' * 24 + 'p ( )' + ' )' * 24
-MAX_INFLIGHT = 48
+# in-flight mode: a shallow expression around the context function p (what one evaluation holds is small, so the total
+# held by k of them can be adjusted finely); at most MAX_INFLIGHT evaluations of it in flight at once
+INFLIGHT_PROGRAM = '1 + ( p ( ) )'
+MAX_INFLIGHT = 300
 PROGRAMS = [
     'x + y', 'x - y', 'x * 2 ; x', 'a = x ; a', 'a = x ; a < y ; a', 'a < y ; a', 'a = 4 ; a', 'a < 4 ; a',
     '7 - 2', '7 + 2', 'x / 0', '1 + ( 2 + ( 3 / 0 ) )', 'a = x ; b = a / 0 ; c = 1', 'q', 'q + 1',
@@ -241,7 +242,22 @@ def harness(it, px, params):
     mdl = mdl or px.get_model()
     rec['witness'] = {k: str(mdl.eval(v.f[0].m, model_completion=True).as_long()) for k, v in xs.items()}
     if accel_k is not None and mode == 'in-flight':
-        rec['witness']['inflight'] = mdl.eval(accel_k, model_completion=True).as_long()
+        kv = mdl.eval(accel_k, model_completion=True).as_long()
+        if problems:
+            # the least k on this path: with fewer evaluations in flight each of them still gets in
+            lo, hi = 0, kv
+            while lo < hi:
+                mid = (lo + hi) // 2
+                px.solver.push()
+                px.solver.add(z3.ULE(accel_k, z3.BitVecVal(mid, 64)))
+                r = px.solver.check()
+                px.solver.pop()
+                if r == z3.sat:
+                    hi = mid
+                else:
+                    lo = mid + 1
+            kv = lo
+        rec['witness']['inflight'] = kv
     elif accel_k is not None:
         rec['witness']['reps'] = R + mdl.eval(accel_k, model_completion=True).as_long()
     ptrs = getattr(px, 'ptrs', {})
@@ -383,7 +399,7 @@ def run(ctx):
             'states': max(1, summ['paths']), 'transitions': max(1, summ['decisions']),
             'traces_validated_against_impl': validated, 'samples': samples, 'exhaustive': not summ.get('truncated') and not inconclusive, 'truncated_by_budget': bool(summ.get('truncated')),
             'bound': {'programs': len(progs), 'ordered_pairs': len(progs) ** 2, 'history_modes': ['parse-only', 'once', 'repeat x%d' % R, 'same AST twice', 'A parsed, then postfix/prefix/infix/function registrations, then B (programs: %s)' % REG_PROGRAMS,
-                                                     'in-flight: k <= %d evaluations of a 24-level program paused inside a context function on other threads while B runs (k symbolic; what one of them holds in process-wide integers is multiplied by k)' % MAX_INFLIGHT,
+                                                     'in-flight: k <= %d evaluations of `%s` paused inside a context function on other threads while B runs (k symbolic; what one of them holds in process-wide integers is multiplied by k; the least k is reported)' % (MAX_INFLIGHT, INFLIGHT_PROGRAM),
                                                      'repeat: integers in statics / thread-locals that move linearly per evaluation are extrapolated by a symbolic k <= %d further evaluations' % es.ACCEL_MAX],
                       'context_values': 'four symbolic integers |n| <= 10^12'},
             'path_status': by_status, 'global_cells_changed_by_a_call': changed,
